@@ -776,7 +776,7 @@ pub fn units(property: &'static str, thorough: bool, seed: u64) -> Vec<Unit> {
         u.push(exhaustive_unit(property, n, counts.clone(), if thorough { 3 } else { 2 }, if thorough { 3 } else { 2 }));
     }
     let parts = 16;
-    let cases = if thorough { 6000 } else { 600 };
+    let cases = if thorough { 10000 } else { 2000 };
     for part in 0..parts {
         u.push(random_unit(property, cases, seed, thorough, part));
     }
